@@ -2,6 +2,7 @@
   C17 (continued) — the container `GroupBy` builds, node by node (CM.Model.GroupBag, compared with the real `_prepare_container` by S-FACTORY/group).
 -/
 import CM.Proofs.GroupBag
+import CM.Proofs.GroupBagWF
 import CM.Props.C17
 namespace CM.C17
 open CM
@@ -74,6 +75,11 @@ theorem node_groupby_field_term {prev b : Bag} (h : groupByBag prev = .ok b) :
     intro q hq
     simp only [List.zip_cons_cons, List.zip_nil_right, List.mem_singleton] at hq
     subst hq; exact hm
+
+/-- **Node level: `GroupBy` over a well-formed container builds a well-formed container** (ids below the counter, one incoming edge per node, inputs
+are leaves, names of inputs / of outputs pairwise different, nothing virtual among them, persistent names are outputs): so everything proved for
+well-formed containers (gluing, `term_sound`, the link to the stack machine) applies to pipelines that continue after a `GroupBy`. -/
+theorem node_groupby_wf {prev b : Bag} (hw : prev.WF) (h : groupByBag prev = .ok b) : b.WF := groupByBag_wf hw h
 
 /-- a dataset as a container: input `id`, outputs `ids` (a constant) and `x` -/
 def exDataset : Bag :=
